@@ -134,7 +134,7 @@ TODO_REASON = 'check not built yet in this round (planned, see DESIGN.md section
 SRC_TIES = {
     'C01': 'the loop-body statements of the integration step, the initial state, the Vector operators, Wind.vector, barrel elevation/azimuth, drag_by_mach',
     'C02': 'zero_angle in slices (start on the sight line, zero distance, loop condition, error and correction from the trial row, verdict)',
-    'C03': 'THE WHOLE BODY of the while loop of _integrate (= the model function iterate, for every loop state; the whole-run theorems of C01 C04 C11 C12 C15 are about the same function) and the while condition; _TrajectoryDataFilter.__init__/should_record/check_next_time and the skip loop',
+    'C03': 'THE WHOLE OF _integrate: the statements before the loop (= the initial loop state), the whole body of the while loop (= the model function iterate, for every loop state; the whole-run theorems of C01 C04 C11 C12 C15 are about the same function), the while condition and the row appended after the loop (= integrate); _TrajectoryDataFilter.__init__/should_record/check_next_time and the skip loop',
     'C04': 'the limit check (three limits, reason chain), the while condition and min_step of _integrate',
     'C05': 'create_trajectory_row with the _new_* constructors, get_correction, calculate_energy/ogw, spin_drift, calc_stability_coefficient',
     'C08': 'eleven Atmo functions incl. calculate_air_density and get_density_factor_and_mach_for_altitude',
